@@ -1,5 +1,6 @@
 import CoupeModel.Model.KMeansAbs
 import CoupeModel.Driver.Util
+import CoupeModel.Driver.C05
 import CoupeModel.Driver.C07
 import CoupeModel.Driver.C14
 import CoupeModel.Driver.C15
@@ -10,7 +11,12 @@ Driver for C02 (ops: see `harness/src/props/c02.rs`).  Canonical line: `ok <ids>
 
 * `vnbest|vnfirst`, `kl`, `fm`: the op's tail is the owner's op (C14, C15, C07); the owner's handler
   runs the exact model and the id array is cut out of its line.
-* `arcswap`: the exact model is the scheduled step function of C05 – not replayed here (`skip`).
+* `arcswap`: a run in a single-worker pool with `i64` weights is deterministic: the op is rewritten
+  as C05's `seq` op and `Coupe.ArcSwap.runSeq` (one task) must give exactly the ids (`skip` when the
+  instance is outside the domain of C05's `seq` parser: more than 64 vertices, weights above 1000,
+  or when the driver's float cross-check declines); `f64` weights: `skip` (the model is for `i64`);
+  several workers run freely: `skip free-running (oracle only)` – every interleaving is covered by
+  the theorems of C05, the schedule-controlled correspondence is C05's.
 * `kmeans2|kmeans3`: the sweeps recorded by the hook are checked one by one against the abstract
   model (`KMeansAbs.legalStep` = "some `best` function produces this sweep", theorem
   `kmeans_legal_step_iff`; `sameIds`: the centre ids in use are a rearrangement of
@@ -134,6 +140,49 @@ def handleKMeans (dim : Nat) (tail : List String) : String :=
           | .panicCenterEmpty => "panic assertion failed: !points.is_empty()"
   | _ => "bad-op"
 
+/-- `arcswap <threads> <wt> <mi> <rows> {<deg> {<j> <w>}} <m> <ids…> <l> <ws…>` -/
+def handleArcSwap (tail : List String) : String :=
+  match tail with
+  | th :: wt :: mi :: n :: rest =>
+    match (do
+      let th ← parseNat? th
+      let n ← parseNat? n
+      let (g, rest) ← Coupe.Driver.C07.parseRows n rest
+      match rest with
+      | m :: rest =>
+        let m ← parseNat? m
+        let (ids, rest) ← takeParsed parseNat? m rest
+        match rest with
+        | l :: rest =>
+          let l ← parseNat? l
+          let (ws, rest) ← takeParsed parseInt? l rest
+          if rest.isEmpty then some (th, g, ids, ws) else none
+        | [] => none
+      | [] => none) with
+    | none => "bad-op"
+    | some (th, g, ids, ws) =>
+      if wt != "i" && wt != "f" then "bad-op"
+      else if th != 1 then "skip free-running (oracle only)"
+      else if wt == "f" then "skip f64-weights (C05 model is for i64)"
+      else
+        -- C05's op: `seq <n> <imb> ; indptr ; indices ; data ; w ; parts`
+        let indptr := g.foldl (fun (acc : List Nat) r => acc ++ [acc.getLastD 0 + r.length]) [0]
+        let strs (l : List Nat) := l.map toString
+        let op := ["seq", toString g.length, mi, ";"] ++ strs indptr ++ [";"] ++
+          strs (g.flatMap (fun r => r.map (·.1))) ++ [";"] ++
+          (g.flatMap (fun r => r.map (fun e => toString e.2))) ++ [";"] ++
+          ws.map toString ++ [";"] ++ strs ids
+        let line := Coupe.Driver.C05.handle op
+        match words line with
+        | "ok" :: idsTok :: _ =>
+          if idsTok.startsWith "ids=" then
+            " ".intercalate ("ok" :: ((idsTok.drop 4).toString.splitOn ",").filter (· ≠ ""))
+          else "skip C05-seq: " ++ line
+        | "bad-op" :: _ => "skip outside-C05-seq-domain"
+        | "skip" :: _ => line
+        | _ => line
+  | _ => "bad-op"
+
 def handle (toks : List String) : String :=
   match toks with
   | "vnbest" :: rest => relabel (Coupe.Driver.C14.handle ("best" :: rest))
@@ -141,7 +190,7 @@ def handle (toks : List String) : String :=
   | "kl" :: th :: rest =>
     if (parseNat? th).isNone then "bad-op" else relabel (Coupe.Driver.C15.handle ("kl" :: rest))
   | "fm" :: th :: rest => if (parseNat? th).isNone then "bad-op" else handleFm rest
-  | "arcswap" :: _ => "skip exact-model-in-C05"
+  | "arcswap" :: rest => handleArcSwap rest
   | "kmeans2" :: rest => handleKMeans 2 rest
   | "kmeans3" :: rest => handleKMeans 3 rest
   | _ => "bad-op"
